@@ -131,7 +131,10 @@ TransportationProblem::TransportationProblem(
     const std::vector<DemandType>& capacities,
     const std::vector<DemandType>& demands,
     const std::vector<std::vector<CostType> >& costs)
-    : demands_(demands), capacities_(capacities), costs_(costs) {
+    : demands_(demands),
+      capacities_(capacities),
+      costs_(costs),
+      conversionFactor_(1.0) {
   resetAllocations();
   check();
 }
